@@ -330,8 +330,10 @@ def disable_e3nn_codegen():
     """Context manager that disables the legacy PyTorch code generation used in e3nn."""
     init_val = get_optimization_defaults()["jit_script_fx"]
     set_optimization_defaults(jit_script_fx=False)
-    yield
-    set_optimization_defaults(jit_script_fx=init_val)
+    try:
+        yield
+    finally:
+        set_optimization_defaults(jit_script_fx=init_val)
 
 
 def prepare(func: ModuleFactory, allow_autograd: bool = True) -> ModuleFactory:
